@@ -352,6 +352,10 @@ namespace Pistache
         {
             Size<T> size;
 
+            // a zero-length chunk would end the body (see ResponseStream::write)
+            if (size(val) == 0)
+                return stream;
+
             std::ostream os(&stream.buf_);
             os << std::hex << size(val) << crlf;
             os << val << crlf;
